@@ -1318,6 +1318,8 @@ def explore(fn, timeout_ms=10000, prefix=(), max_paths=200000, sample_every=0, b
             break
         if not sp.next_path():
             break
+    st.setdefault("hunts", 0)
+    st["by_abstraction"] = getattr(sp, "n_abs", 0)
     st.update(queries=sp.nq, unsat=sp.n_unsat, sat=sp.n_sat, n_unknown=sp.n_unknown, branch_unknown=sp.n_branch_unknown,
               solver_s=round(sp.t_solver, 3), wall_s=round(time.time() - t0, 3))
     return st
